@@ -398,21 +398,22 @@ Section Run.
       assert (Htne : t <> []).
       { eapply merge_nonnil; [exact Hil|left; reflexivity|apply Hone; left; reflexivity]. }
       split; [|intros o1 H; inversion H; subst; exact Htne].
-      cbn [vsconcatR sconcatR res_bind]. fold (vsconcat t).
+      rewrite vsconcatR_Ok.
       assert (Hbad : forall o1, In o1 os -> failed (vsconcat o1) -> failed (vsconcat t)).
       { intros o1 Ho Hf. eapply merge_failed; eauto. }
       destruct (failed_dec (res_bind (vsconcat s) fv)) as [(v & Ev)|Hvf].
       + (* value mode succeeds: every branch does, the keys are disjoint *)
         apply bind_ok_inv in Ev as (x & Ex & Ev). unfold fv in Ev.
         apply bind_ok_inv in Ev as (ys & Eys & Ev).
-        rewrite Ex. cbn [res_bind]. rewrite Eys. cbn [res_bind].
+        rewrite Ex. cbn [res_bind]. unfold fv. rewrite Eys. cbn [res_bind].
         pose proof (mapM_ok _ _ _ Eys) as HFv.
         assert (HFo : Forall2 (fun o y => vsconcat o = Ok y) os ys).
-        { clear -HF2 HFv Hchild Ex. revert ys HFv.
-          induction HF2 as [|p o ps os (j & Ej) HF2 IH]; intros ys HFv; inversion HFv; subst; constructor.
-          - destruct (Hchild p j (or_introl eq_refl)) as (Ha & _).
-            rewrite Ej, Ex in Ha. cbn in Ha.
-            match goal with H : run_value p x = Ok _ |- _ => rewrite H in Ha end.
+        { clear -HF2 HFv Hchild Ex. revert ys HFv. generalize dependent os. clear o o' os'.
+          intros os HF2.
+          induction HF2 as [|p1 o1 ps1 os1 (j & Ej) HF2 IH]; intros ys HFv; inversion HFv; subst; constructor.
+          - destruct (Hchild p1 j (or_introl eq_refl)) as (Ha & _).
+            rewrite Ej, Ex in Ha. rewrite vsconcatR_Ok in Ha. cbn [res_bind] in Ha.
+            match goal with H : run_value p1 x = Ok _ |- _ => rewrite H in Ha end.
             apply agree_ok_r in Ha. exact Ha.
           - apply IH; auto. intros p' i Hp'. apply Hchild. right; auto. }
         specialize (Hd x Ex). unfold D in Hd. cbn [dom_ok] in Hd.
@@ -463,7 +464,7 @@ Section Run.
         * assert (Ha : In a alts) by (eapply nth_error_In; eauto).
           destruct (HF a Ha (i :: pos) s Hs) as (Hag & Hne).
           { intros x' Ex'. assert (x' = x) by congruence. subst x'.
-            specialize (Hd x Ex). unfold D in *. cbn [dom_ok] in Hd. rewrite Ei in Hd.
+            specialize (Hd x eq_refl). unfold D in *. cbn [dom_ok] in Hd. rewrite Ei in Hd.
             rewrite nth_apply_spec, En in Hd. exact Hd. }
           rewrite Ex in Hag. split; auto.
         * split; [exact I|discriminate].
